@@ -73,9 +73,10 @@ def knownRacy : List String :=
     "BufferWithCount.buffer",                  -- operator_transformations.go:591 teardown write, :571-:579 source callback
     "GroupByIWithContext.groups",              -- operator_transformations.go:385 teardown overwrites the sync.Map the callbacks use
     "detachOn.ch",                             -- operator_utility.go:585 teardown closes the channel the source callback sends on (:597)
-    "ToChannel.ch",                            -- operator_sink.go:130 same shape (:150)
-    "MergeMapIWithContext.i",                  -- operator_combining.go:215 index shared by all subscriptions (also C12)
-    "OnErrorResumeNextWith.finally" ]          -- operator_error_handling.go:61 captured slice rewritten per application (also C12)
+    "ToChannel.ch" ]                           -- operator_sink.go:130 same shape (:150)
+-- Repaired in the repository since the first run of this check (commits 11bf135, fd0e106), and therefore
+-- no longer excused: "MergeMapIWithContext.i" (index shared by all subscriptions) and
+-- "OnErrorResumeNextWith.finally" (captured slice rewritten per application), both also C12.
 
 def tableOk (known : List String) (t : List Loc) : Bool :=
   t.all (fun l => known.contains l.name || locOk l)
